@@ -155,7 +155,15 @@ func verifClientView(res *zzverif.Resp) []any {
 	if res.NoResp {
 		st = 0
 	}
-	return []any{"st", st, "from", from, "e", e, "a", a, "n", n, "complete", res.Complete, "junk", junk,
+	// the backend's two X-Verif-Multi lines: how many values arrived, and how many of them are this attempt's
+	hmAll, hmOwn := 0, 0
+	for i, v := range res.Header.Values("X-Verif-Multi") {
+		hmAll++
+		if v == fmt.Sprintf("%s/%d/%d", e, a, i+1) {
+			hmOwn++
+		}
+	}
+	return []any{"hmAll", hmAll, "hmOwn", hmOwn, "st", st, "from", from, "e", e, "a", a, "n", n, "complete", res.Complete, "junk", junk,
 		"mixed", mixed, "bodyClass", verifBodyClass(res.Body, runs, junk), "ms", res.Elapsed.Milliseconds(),
 		"ct", res.Header.Get("Content-Type")}
 }
